@@ -355,6 +355,10 @@ func (p *Parser) matchedArithm(lpos Pos, left, right token) {
 func (p *Parser) arithmEnd(ltok token, lpos Pos, old saveState) Pos {
 	if !p.peekArithmEnd() {
 		if p.recoverError() {
+			p.postNested(old)
+			// The current token was lexed as arithmetic, where the
+			// offset of an assignment's "=" is not kept up to date.
+			p.eqlOffs = 0
 			return recoveredPos
 		}
 		p.arithmMatchingErr(lpos, ltok, dblRightParen)
